@@ -461,7 +461,77 @@ def _close(a, b, tol=1e-9):
     return abs(a - b) <= tol * max(1.0, abs(a), abs(b)) or (math.isnan(a) and math.isnan(b))
 
 
+def module_state_changes():
+    """does a parse write module-level state?  snapshot every container / object held in a module
+    global of the package, run three parses, compare"""
+    import importlib
+    import sys
+    from datetime import datetime
+    C = importlib.import_module("ctparse.ctparse")
+
+    def snap():
+        out = {}
+        for mn, mod in list(sys.modules.items()):
+            if not mn.startswith("ctparse") or mod is None:
+                continue
+            for k, v in list(vars(mod).items()):
+                if k.startswith("__") or callable(v) or isinstance(v, (str, int, float, tuple, type(None), type(sys))):
+                    continue
+                try:
+                    shallow = None
+                    if hasattr(v, "__dict__"):
+                        shallow = repr(sorted((a, x if isinstance(x, (int, float, str, bool, type(None))) else type(x).__name__)
+                                              for a, x in vars(v).items()))[:2000]
+                    out[mn + "." + k] = (len(v) if hasattr(v, "__len__") else None,
+                                         repr(v)[:2000] if isinstance(v, (dict, list, set)) else None, shallow)
+                except Exception:
+                    out[mn + "." + k] = ("?",)
+        return out
+    ts = datetime(2018, 3, 7, 12, 43)
+    C.ctparse("tomorrow 8pm", ts=ts, timeout=0)
+    before = snap()
+    for t in ("on on monday", "tomorrow tomorrow", "3 4 5", "at monday"):
+        C.ctparse(t, ts=ts, timeout=0)
+    after = snap()
+    return sorted(k for k in after if before.get(k) != after[k])
+
+
+def h_frame_history(rp):
+    ch = module_state_changes()
+    return {"func": rp["func"], "clause": rp["clause"], "module_level_state_changed_by_parsing": ch, "confirmed": bool(ch)}
+
+
+def h_loader(rp):
+    import importlib
+    import os
+    L = importlib.import_module("ctparse.loader")
+    from ctparse.scorer import Scorer
+    present = "present" in rp["func"]
+    out = {"func": rp["func"], "clause": rp["clause"]}
+    orig = os.path.exists
+    L.os.path.exists = (lambda p: orig(p)) if present else (lambda p: False)
+    try:
+        try:
+            r = L.load_default_scorer()
+            out["real_result"] = repr(r)
+            ok = isinstance(r, Scorer)
+            if ok:
+                # and it must be usable: a parse under it
+                C = importlib.import_module("ctparse.ctparse")
+                from datetime import datetime
+                C.ctparse("tomorrow 8pm", ts=datetime(2018, 3, 7), timeout=0, scorer=r)
+            out["confirmed"] = not ok
+        except Exception as e:
+            out["real_exception"] = repr(e)
+            out["confirmed"] = True
+    finally:
+        L.os.path.exists = orig
+    return out
+
+
 def h_nb(rp):
+    if rp["clause"] == "frame":
+        return h_frame_history(rp)
     import importlib
     import math
     from spec import nb as SPEC
@@ -514,6 +584,8 @@ def h_nb(rp):
 
 
 def h_partial_parse(rp):
+    if rp["clause"] == "frame":
+        return h_frame_history(rp)
     import importlib
     PP = importlib.import_module("ctparse.partial_parse")
     import ctparse.types as T
@@ -595,7 +667,7 @@ def h_gap(rp):
     return out
 
 
-HANDLERS = [("ctparse._regex_stack.get_m_dist", h_gap), ("partial_parse.PartialParse.", h_partial_parse), ("nb_estimator.", h_nb), ("ctparse._match_rule", h_match_rule), ("ctparse._ctparse.emission", h_emission), ("ctparse._ctparse", h_deadline), ("ctparse._regex_stack", h_deadline), ("ctparse._get_labels", h_labels), ("ctparse.ctparse[", h_ctparse), ("regex[", h_reglan),
+HANDLERS = [("loader.load_default_scorer", h_loader), ("nb_scorer.", h_nb), ("ctparse._regex_stack.get_m_dist", h_gap), ("partial_parse.PartialParse.", h_partial_parse), ("nb_estimator.", h_nb), ("ctparse._match_rule", h_match_rule), ("ctparse._ctparse.emission", h_emission), ("ctparse._ctparse", h_deadline), ("ctparse._regex_stack", h_deadline), ("ctparse._get_labels", h_labels), ("ctparse.ctparse[", h_ctparse), ("regex[", h_reglan),
             ("types.Artifact.__eq__", h_eq), ("corpus.parse_nb_string.nb_str", h_roundtrip),
             ("postprocess_latent.apply_postprocessing_rules", h_postprocess),
             ("types.Time.", h_accessor), ("types.Interval.", h_accessor),
